@@ -576,9 +576,14 @@ def partition_random(run, prop, classify, only_limits=False, samples=False):
     th = run.tier == "thorough"
     # 3. code -> model: random long histories with large limits, dyadic fractions, dynamic partitions
     n = 800 if th else 200
-    out, _ = run.go("^TestPartitionRandom$", env={"VERIF_N": n})
+    out, _ = run.go("^(TestPartitionRandom|TestPartitionMoved)$", env={"VERIF_N": n})
     tp = os.path.join(out, "partition_trace.ndjson")
+    # histories of strategies one of whose partition objects has lived in another strategy before
+    with open(tp, "a") as f:
+        f.write(open(os.path.join(out, "partition_moved_trace.ndjson")).read())
     rows = vlib.read_ndjson(tp)
+    if not any(x["trace"] >= 100000 for x in rows):
+        raise Machinery("no moved-partition histories were recorded")
     rejects = validate_trace(run, "PartitionTrace", "Partition_trace.cfg", tp, len(rows))
     ntr = len([x for x in rows if x["ev"] == "Reset"])
     run.traces += ntr
